@@ -24,6 +24,9 @@ def run(rep, work, tier, seed, props, replay=None):
     for dt, shape, kind, via in itertools.product(["float64", "float32", "int64"], [[], [3], [2, 1, 3]], ["leaf", "view"], ["str_noext", "str_dotted", "path_dotted"]):
         for grad in (True, False):
             tasks.append({"dtype": dt, "shape": shape, "kind": kind, "via": via, "grad": grad, "constant": None})
+    for dt, shape, via in itertools.product(["float64", "float32", "int64", "bool"], [[], [3], [2, 1, 3]], ["named_tempfile", "duck"]):
+        for grad in (True, False):
+            tasks.append({"dtype": dt, "shape": shape, "kind": "leaf", "via": via, "grad": grad, "constant": None})
     # archives not written by mygrad.save: load == tensor(data) then backward(grad), so the stored gradient is cast / broadcast / refused like any seed
     for dt, shape in (("float64", [2, 3]), ("float32", [6]), ("float64", [])):
         n = 6 if shape else 1
